@@ -306,7 +306,11 @@ class TermBuilder:
             t = self._name_term(name, at, defs)
         finally:
             self._busy.discard(key)
-        self._memo[key] = t
+        # a value computed while a recurrence is being explored may contain a placeholder for the carried variable: it is an
+        # intermediate of that exploration, not the value of the name at this point
+        exploring = any(isinstance(k[1], str) and "#" in k[1] for k in self._busy)
+        if not (exploring and any(isinstance(x, Sym) and "@" in x.name for x in tm.subterms(t))):
+            self._memo[key] = t
         return t
 
     def _name_term(self, name, at, defs: List[Node]) -> T:
@@ -376,7 +380,8 @@ class TermBuilder:
             return None
         rng = self.loop_range(L)
         if rng is None or not isinstance(L.target, ast.Name) or rng.step not in (tm.ONE, tm.const(-1)):
-            return None
+            # not a range loop: a running total over `for x in seq` is still a prefix sum over the position
+            return self._prefix_sum(name, L, d0, d1)
         i = Sym(L.target.id)
         key = (d1.id, name + "#lag")
         if key in self._busy:
@@ -387,10 +392,41 @@ class TermBuilder:
         finally:
             self._busy.discard(key)
         if any(isinstance(x, Sym) and "@" in x.name for x in tm.subterms(val)):
-            return None
+            ps = self._prefix_sum(name, L, d0, d1, val=val) if rng.step == tm.ONE else None
+            return ps
         prev = tm.substitute(val, {i.key: tm.add(i, tm.neg(rng.step))})
         first = tm.compare("==", i, rng.lo)
         return PW([(first, self._def_term(name, d0)), (tm.negate(first), prev)])
+
+    def _prefix_sum(self, name, L, d0: Node, d1: Node, val: Optional[T] = None) -> Optional[T]:
+        """v = c before the loop; the only in-loop definition is v = v + g(position) (possibly through a chain of temporaries,
+        executed on every iteration): a read before that update, at position k, sees c + SUM_{j < k} g(j)."""
+        try:
+            isym, it = self.binder_of(L)
+        except Exception:
+            return None
+        if not isinstance(it, Range) or it.step != tm.ONE:
+            return None
+        key = (d1.id, name + "#psum")
+        if key in self._busy:
+            return None
+        if val is None:
+            self._busy.add(key)
+            try:
+                val = self._def_term(name, d1)
+            finally:
+                self._busy.discard(key)
+        selfs = [x for x in tm.subterms(val) if isinstance(x, Sym) and "@" in x.name]
+        if not selfs or any(x.name.split("@")[0] != name for x in selfs) or len({x.key for x in selfs}) != 1:
+            return None
+        X = selfs[0]
+        g = tm.add(val, tm.neg(X))
+        if any((isinstance(x, Sym) and ("@" in x.name or x.name == name)) for x in tm.subterms(g)):
+            return None          # not additive in the carried value
+        j = Sym("$p%d" % L.lineno)
+        body = tm.substitute(g, {isym.key: j})
+        init = self._def_term(name, d0)
+        return tm.add(init, Sum(body, ((j, Range(it.lo, isym)),)))
 
     def _def_term(self, name: str, d: Node) -> T:
         if d.kind == "entry":
